@@ -18,9 +18,13 @@ type TokCase struct {
 	DF   string    `json:"df"`
 	Text string    `json:"text,omitempty"`
 	Fill []string  `json:"fill,omitempty"`
+	Raw  []byte    `json:"raw,omitempty"` // the original input when the tokens were cut from it
 }
 
 func (c TokCase) text() string {
+	if c.Raw != nil {
+		return string(c.Raw)
+	}
 	if len(c.Fill) > 0 {
 		return gen.Join(c.Toks, gen.Opts{Fill: c.Fill})
 	}
